@@ -132,6 +132,14 @@ pub enum Decision {
     /// announcing a 16-byte body that is withheld, connection closed at the end; logged `Acked`, because the
     /// HTTP status is the whole acknowledgement there.
     StallAfterHeaders,
+    /// From this request on NOTHING is ever answered on this connection: this request and every later
+    /// one on the same connection id get no response bytes, no reset, no GOAWAY, no FIN — the socket stays
+    /// open until the collector shuts down, whatever the peer does — while NEW connections are served
+    /// normally (a frozen peer / black-holing middlebox). `keep_reading: true`: request bodies are still read
+    /// and logged (later requests on the connection are logged with this same decision, without consuming
+    /// the script); `false`: the collector stops reading the connection altogether (gRPC: later streams are
+    /// never even seen). Logged `Dropped` at once (no answer will come).
+    WedgeConnection { keep_reading: bool },
     /// like `StallAfterHeaders`, but part of the response body is sent first (gRPC: 3 of the 5 bytes of
     /// the message prefix; HTTP/1: 4 of the 16 announced bytes)
     StallMidBody,
@@ -280,11 +288,17 @@ impl Inner {
 
     /// Log the arrival of a request and take its scripted decision.
     pub fn begin(&self, head: Head) -> (usize, Decision, Option<Signal>) {
+        self.begin_with(head, None)
+    }
+
+    /// `forced`: a decision inherited from the connection (wedged) instead of the signal's script.
+    pub fn begin_with(&self, head: Head, forced: Option<Decision>) -> (usize, Decision, Option<Signal>) {
         let signal = Signal::of_path(&head.path);
         let mut st = self.state.lock().unwrap();
-        let decision = match signal {
-            Some(s) => st.scripts[s.index()].pop_front().unwrap_or_else(|| st.defaults[s.index()].clone()),
-            None => Decision::Status(404),
+        let decision = match (forced, signal) {
+            (Some(d), _) => d,
+            (None, Some(s)) => st.scripts[s.index()].pop_front().unwrap_or_else(|| st.defaults[s.index()].clone()),
+            (None, None) => Decision::Status(404),
         };
         let idx = st.log.len();
         st.log.push(RequestLog {
